@@ -19,8 +19,7 @@ import re
 import common as C
 
 PID = "C03"
-CLASS_NAMES = {1: "copy_stale_uidnext", 2: "copy_reuses_uid", 3: "move_max_uid",
-               4: "rename_inbox_uidnext_reset", 5: "validity_same_second"}
+CLASS_NAMES = {5: "validity_same_second"}   # codes 1-4 were the classes repaired in the fix wave
 USER = "u@example.com"
 MSG = "From: a@example.com\r\nTo: u@example.com\r\nSubject: s%d\r\n\r\nbody %d\r\n"
 SEL_KINDS = ("uidcopy", "copy", "uidstore", "expunge", "close")
@@ -181,9 +180,11 @@ class Scenario:
             pre = dump
             pre_m = {m[2]: m for m in (pre.get("mailboxes") or [])}
             if k == "select":
+                # a SELECT first deselects; if it then fails nothing is selected (RFC 3501 6.3.1)
+                sel[s] = 0
                 if reply_class(tagged(obs[last]["recv"], tag)) == "OK":
                     name = "INBOX" if st["name"].upper() == "INBOX" else st["name"]
-                    sel[s] = pre_m[name][0] if name in pre_m else sel[s]
+                    sel[s] = pre_m[name][0] if name in pre_m else 0
                 continue
             if k == "status":
                 rest = obs[last]["recv"]
@@ -375,7 +376,7 @@ def gen_history(rng, n, clean, copy_ok):
             nm = existing()
             script.append({"k": "select", "s": s, "name": nm if nm != "INBOX" or rng.random() < 0.8 else "inbox"})
             mir.sel[s] = nm
-        elif r < 0.54 and not clean:
+        elif r < 0.54:
             if mir.sel[s] is None:
                 continue
             d = existing()
@@ -386,8 +387,6 @@ def gen_history(rng, n, clean, copy_ok):
             if mir.sel[s] is None:
                 continue
             fl = rng.choice([["\\Deleted"], ["\\Deleted"], ["\\Seen"], ["Junk"], ["NonJunk"], ["\\Deleted", "\\Seen"]])
-            if clean and fl[0] in ("Junk", "NonJunk"):
-                fl = ["\\Deleted"]
             script.append({"k": "uidstore", "s": s, "set": some_set(), "mode": rng.choice(["+", "+", "+", "-", "="]), "flags": fl})
         elif r < 0.74:
             if mir.sel[s] is None:
@@ -414,7 +413,7 @@ def gen_history(rng, n, clean, copy_ok):
                 cands = sorted(mir.names - {"INBOX", "Sent", "Drafts", "Trash", "Spam", "D"})
                 if not cands:
                     continue
-                old, new = rng.choice(cands), fresh_name()
+                old, new = rng.choice(cands + ["INBOX"]), fresh_name()
             else:
                 old = rng.choice(sorted(mir.names - {"Sent", "Drafts"}) + ["INBOX", "inbox"])
                 new = rng.choice(POOL + ["Spam"])
